@@ -171,8 +171,12 @@ def handler_src(P):
     a = P["kind"]["async"]
     opt = P["carrier"] == "opt"
     argty = "rt::Tok" if h in ("map", "and_then") else carrier_ty(P)
-    params = ", ".join(f"a{i}: {argty}" for i in range(n))
-    arr = ", ".join(f"a{i}.into()" for i in range(n))
+    pn = [f"a{i}" for i in range(n)]
+    if P.get("hperm"):
+        # parameters spelled like the branches' `let` names, rotated by one: position i is called like branch i+1
+        pn = [name_of((i + 1) % n) for i in range(n)]
+    params = ", ".join(f"{pn[i]}: {argty}" for i in range(n))
+    arr = ", ".join(f"{pn[i]}.into()" for i in range(n))
     hid = P.get("hid", 0)
     if h == "map":
         body = f"rt::h(&mut [{arr}])"
